@@ -2003,15 +2003,21 @@ def clean_dictionary(ddct):
             ddct[key] = ""
 
     linenumber = ddct.get("__line__", "?")
-    for key in ["format", "options", "attrs", "fattrs"]:
-        if key in ddct and ddct[key] is not None and \
-           not isinstance(ddct[key], dict):
+    for key in ["format", "options", "attrs", "fattrs",
+                "splicer", "fstatements"]:
+        if key not in ddct:
+            continue
+        if ddct[key] is None:
+            ddct[key] = {}
+        elif not isinstance(ddct[key], dict):
             raise RuntimeError(
                 "{} must be a dictionary around line {}".format(
                     key, linenumber))
-    if "decl" in ddct and not isinstance(ddct["decl"], str):
-        raise RuntimeError(
-            "decl must be a string around line {}".format(linenumber))
+    for key in ["decl", "library", "language", "cxx_header", "namespace"]:
+        if key in ddct and not isinstance(ddct[key], str):
+            raise RuntimeError(
+                "{} must be a string around line {}".format(
+                    key, linenumber))
 
     if "default_arg_suffix" in ddct:
         default_arg_suffix = ddct["default_arg_suffix"]
@@ -2163,13 +2169,17 @@ def add_declarations(parent, node):
     """
     if "declarations" not in node:
         return
-    if not node["declarations"]:
+    if node["declarations"] is None:
         return
     if not isinstance(node["declarations"], list):
         raise RuntimeError("declarations must be a list around line {}".format(
             node.get("__line__", "?")))
 
     for subnode in node["declarations"]:
+        if not isinstance(subnode, dict):
+            raise RuntimeError(
+                "declarations must be a list of dictionaries around line {}"
+                .format(node.get("__line__", "?")))
         if "block" in subnode:
             dct = copy.copy(subnode)
             clean_dictionary(dct)
@@ -2219,6 +2229,11 @@ def create_library_from_dictionary(node):
     Every class must have a name.
     """
 
+    for key in ["copyright", "typemap"]:
+        if key in node and node[key] is None:
+            node[key] = []
+        elif key in node and not isinstance(node[key], list):
+            raise RuntimeError("{} must be a list".format(key))
     if "copyright" in node:
         clean_list(node["copyright"])
 
@@ -2228,6 +2243,12 @@ def create_library_from_dictionary(node):
     if "typemap" in node:
         # list of dictionaries
         for subnode in node["typemap"]:
+            if not isinstance(subnode, dict) or \
+               "type" not in subnode or \
+               not isinstance(subnode.get("fields"), dict):
+                raise RuntimeError(
+                    "typemap must be a list of dictionaries "
+                    "with 'type' and 'fields'")
             # Update fields for a type. For example, set cpp_if
             key = subnode["type"]
             fields = subnode["fields"]
